@@ -5,9 +5,9 @@ import treelib as T
 
 PID = "C08"
 LEVEL = "proof"
-COQ_TARGETS = ["Props/C08.vo", "Props/C08_fp.vo"]
-PROPS_FILES = ["C08", "C08_fp"]
-THEOREMS = ["C08_fingerprints", "C08_nonvacuous", "C08_new_errors", "C08_shape", "C08_odds_range", "C08_mass", "C08_weights_roundtrip",
+COQ_TARGETS = ["Props/C08.vo", "Props/C08_fp.vo", "Props/C08_float.vo"]
+PROPS_FILES = ["C08", "C08_fp", "C08_float"]
+THEOREMS = ["C08_float_sentinel_refuted", "C08_float_new_errors", "C08_fingerprints", "C08_nonvacuous", "C08_new_errors", "C08_shape", "C08_odds_range", "C08_mass", "C08_weights_roundtrip",
             "C08_pick_count", "C08_pair_count", "C08_zero_never", "C08_pick_in_range", "C08_lemire_in_range"]
 TRUSTED_BASE = [
     "Coq 8.16.1 kernel + vm_compute",
